@@ -281,11 +281,24 @@ pub fn exec(out: &mut Out, line: &str) -> (String, bool) {
             }
         }
         // text cell: shown unchanged whatever the format
-        "txt" if a.len() == 4 => {
+        // txt = a plain text cell; txtf = a formula cell whose cached result is that text (t="str");
+        // txtr = a rich-text cell with that text in one run: all three are text and shown unchanged
+        "txt" | "txtf" | "txtr" if a.len() == 4 => {
             let text = String::from_utf8(unhex(a[2])).unwrap();
             let pat = String::from_utf8(unhex(a[3])).unwrap();
+            let kind = a[1];
+            out.count(&format!("text-cell.{}", kind));
             let r = guard(|| {
                 let mut c = cell_with(&text, None);
+                if kind == "txtf" {
+                    c.set_formula("T(B1)");
+                } else if kind == "txtr" {
+                    let mut te = umya_spreadsheet::structs::TextElement::default();
+                    te.set_text(text.clone());
+                    let mut rt = umya_spreadsheet::structs::RichText::default();
+                    rt.add_rich_text_elements(te);
+                    c.set_rich_text(rt);
+                }
                 c.get_style_mut().get_number_format_mut().set_format_code(pat.clone());
                 c.get_formatted_value()
             });
@@ -844,6 +857,8 @@ pub fn gen(tier: Tier, seed: u64) -> Vec<String> {
     for val in TEXT_VALUES.iter().chain(NONCANON_VALUES.iter()).chain(["1.5", "-0.001", "12345.678"].iter()) {
         for p in ["General", "@", "0", "0.00", "#,##0.0", "0%", "0.00E+00", "yyyy-mm-dd"] {
             v.push(op2("txt", val, p));
+            v.push(op2("txtf", val, p));
+            v.push(op2("txtr", val, p));
             v.push(op2("str", val, p));
         }
     }
@@ -856,7 +871,7 @@ pub fn gen(tier: Tier, seed: u64) -> Vec<String> {
         let len = rng.range(1, 7);
         let s: String = (0..len).map(|_| *rng.pick(&talpha)).collect();
         let p = if rng.chance(1, 2) { "General".to_string() } else { rng.pick(&pats[..]).clone() };
-        v.push(op2(if rng.chance(1, 3) { "txt" } else { "str" }, &s, &p));
+        v.push(op2(if rng.chance(1, 3) { *rng.pick(&["txt", "txtf", "txtr"]) } else { "str" }, &s, &p));
     }
     // 5. patterns outside the grammar (exploration; the model answers `unmodelled`)
     for p in OTHER_PATTERNS {
